@@ -34,19 +34,40 @@ func TestC09_Replay(t *testing.T) {
 			if err = json.Unmarshal(raw, &c); err != nil {
 				t.Fatalf("replay %s: %v", f, err)
 			}
-			// real sockets and goroutines: inputs replay, schedules do not - try a few times
+			// real sockets and goroutines: inputs replay, schedules do not - try several times. Reproduced = a try
+			// failed with the file's own key (any failure for the transfer-versus-compaction race, which shows as
+			// an aborted or an incomplete transfer); failures under another key are only noted.
 			tries := vEnvInt("VERIF_REPLAY_TRIES", 40)
-			n09ReplayMode = true
+			if c.Tries > tries && os.Getenv("VERIF_REPLAY_TRIES") == "" {
+				tries = c.Tries
+			}
+			n09ReplayMode, n09ReplayKey = true, key
+			other := map[string]int{}
 			for i := 0; i < tries && rerr == nil; i++ {
 				out := n09RunCluster(&c)
 				if out.inconclusive != "" {
-					fmt.Printf("VERIF-NOTE replay %s inconclusive: %s\n", f, out.inconclusive)
+					fmt.Printf("VERIF-NOTE replay %s inconclusive: %.200s\n", f, out.inconclusive)
+					continue
+				}
+				if out.err != nil && !n09SameFinding(key, out.key) && key != n09KeyTransferVsCompaction {
+					if other[out.key] == 0 && os.Getenv("VERIF_REPLAY_VERBOSE") != "" {
+						fmt.Printf("VERIF-NOTE replay %s: other finding %s: %v\n", f, out.key, out.err)
+					}
+					other[out.key]++
 					continue
 				}
 				rerr = out.err
-				got = " observed-key=" + out.key
+				if rerr != nil {
+					got = fmt.Sprintf(" observed-key=%s try=%d", out.key, i+1)
+				}
 			}
-			n09ReplayMode = false
+			if rerr == nil {
+				got = fmt.Sprintf(" tries=%d", tries)
+			}
+			if len(other) > 0 {
+				got += fmt.Sprintf(" other-findings-seen=%v", other)
+			}
+			n09ReplayMode, n09ReplayKey = false, ""
 		default:
 			t.Fatalf("replay %s: unknown kind %q", f, kind.Kind)
 		}
